@@ -99,7 +99,13 @@ func ParseDecimal(in string) (*Decimal, error) {
 		ipart := in[:d]
 		fpart := in[d+1:]
 
-		exponent -= int32(len(fpart))
+		// Compute in 64 bits so that an exponent near the int32 limits
+		// cannot wrap around silently.
+		adjusted := int64(exponent) - int64(len(fpart))
+		if adjusted < math.MinInt32 || adjusted > math.MaxInt32 {
+			return nil, &ParseError{in, "exponent out of range"}
+		}
+		exponent = int32(adjusted)
 		in = ipart + fpart
 	}
 
